@@ -402,6 +402,34 @@ func (x *Exec) builtin(st *State, fr *Frame, resInstr ssa.Instruction, b *ssa.Bu
 			arr := x.heapArr(st, "CHANCAP", arrSort(SInt, SInt))
 			set(Scalar{sel(arr, a.(Scalar).T), types.Typ[types.Int]})
 		}
+	case "copy":
+		// copy(dst, src): n = min(len(dst), len(src)) elements of src replace the first n of dst (both slices of the
+		// same element type; a string source is not modelled), everything else keeps its value; the result is n
+		dst, ok1 := args[0].(SliceV)
+		src, ok2 := args[1].(SliceV)
+		if !ok1 || !ok2 {
+			panic(engineErr("builtin copy from a string unsupported"))
+		}
+		elem := dst.Typ.Underlying().(*types.Slice).Elem()
+		n := x.sym.fresh("copied", SInt)
+		st.assume(Term{fmt.Sprintf("(= %s (ite (<= %s %s) %s %s))", n.S, dst.Len.S, src.Len.S, dst.Len.S, src.Len.S), SBool})
+		for _, l := range leavesOf(elem) {
+			key := heapKeyElem(elem, l.path)
+			h := x.heapArr(st, key, arrSort(SInt, arrSort(SInt, l.sort)))
+			inner := sel(h, dst.Arr)
+			from := sel(h, src.Arr)
+			na := x.sym.fresh("copydst", arrSort(SInt, l.sort))
+			x.sym.counter++
+			q := fmt.Sprintf("j!%d", x.sym.counter)
+			st.assume(Term{fmt.Sprintf("(forall ((%s Int)) (! (= (select %s %s) (ite (and (<= %s %s) (< %s (+ %s %s))) (select %s (+ %s (- %s %s))) (select %s %s))) :pattern ((select %s %s))))",
+				q, na.S, q, dst.Off.S, q, q, dst.Off.S, n.S, from.S, src.Off.S, q, dst.Off.S, inner.S, q, na.S, q), SBool})
+			x.setHeap(st, key, sto(h, dst.Arr, na))
+		}
+		if resInstr != nil {
+			if v, ok := resInstr.(ssa.Value); ok {
+				fr.regs[v] = Scalar{n, types.Typ[types.Int]}
+			}
+		}
 	case "append":
 		return x.appendOp(st, fr, resInstr, args, resType())
 	case "delete":
@@ -437,8 +465,6 @@ func (x *Exec) builtin(st *State, fr *Frame, resInstr ssa.Instruction, b *ssa.Bu
 			op = ">="
 		}
 		set(Scalar{ite(mk(SBool, op, a.T, b2.T), a.T, b2.T), a.Typ})
-	case "copy":
-		panic(engineErr("builtin copy unsupported"))
 	default:
 		panic(engineErr("builtin %s unsupported", b.Name()))
 	}
